@@ -25,45 +25,58 @@ LEAN_MODULES = ["LenaModel.Props.C09"]
 LEAN_SOURCES = ["LenaModel/Model/C09.lean", "LenaModel/Model/C09Spec.lean", "LenaModel/Props/C09.lean"]
 DRIVER = "drivers/C09.lean"
 THEOREMS = [
-    # generic: histories
-    "Lena.C09.reset_bisimilar",
+    # histories: reset-equals-fresh (generic, relational), sentence 1 after ANY history of fills and computes
+    "Lena.C09.reset_bisimilar", "Lena.C09.compute_after_history", "Lena.C09.compute_after_history_pure",
+    "Lena.C09.compute_after_reset_history",
     # Count / Sum / StoreFilled / GroupBy
-    "Lena.C09.Ctx.get_set", "Lena.C09.count_compute_spec", "Lena.C09.count_reset_fresh",
-    "Lena.C09.sum_compute_spec", "Lena.C09.sum_reset_fresh",
-    "Lena.C09.store_compute_spec", "Lena.C09.store_reset_fresh",
-    "Lena.C09.groupby_compute_spec", "Lena.C09.groupby_one_key", "Lena.C09.groupby_reset_fresh",
-    # DSum: exactness
-    "Lena.C09.Dec.add_toRat", "Lena.C09.Dec.ofDy_toRat", "Lena.C09.DSum.addLoop_total", "Lena.C09.DSum.addLoop_prec",
-    "Lena.C09.DSum.addLoop_prec_minimal", "Lena.C09.dsum_exact", "Lena.C09.dsum_reset_fresh",
+    "Lena.C09.count_compute_spec", "Lena.C09.count_compute_after_history", "Lena.C09.count_own_key_only",
+    "Lena.C09.count_run_then_compute", "Lena.C09.count_fillInto_spec",
+    "Lena.C09.sum_compute_spec", "Lena.C09.sum_compute_after_history",
+    "Lena.C09.store_compute_spec", "Lena.C09.store_compute_after_history",
+    "Lena.C09.groupby_compute_spec", "Lena.C09.groupby_one_key", "Lena.C09.groupByOpt_compute_spec",
+    "Lena.C09.groupby_c15_compute_spec",
+    # DSum: Decimal(float) and Dec.add exact, the loop terminates with a sufficient and minimal precision, the raised
+    # precision never shows after reset
+    "Lena.C09.Dec.add_toRat", "Lena.C09.Dec.ofDy_toRat", "Lena.C09.DSum.addLoop_prec",
+    "Lena.C09.DSum.addLoop_prec_minimal", "Lena.C09.dsum_exact", "Lena.C09.dsum_compute_after_history",
+    "Lena.C09.dsum_reset_fresh",
     # Mean / VarianceMeanCount
-    "Lena.C09.mean_compute_spec", "Lena.C09.mean_reset_fresh",
+    "Lena.C09.mean_compute_spec", "Lena.C09.mean_compute_after_history", "Lena.C09.mean_reset_fresh",
     "Lena.C09.meand_compute_spec", "Lena.C09.meand_reset_fresh",
-    "Lena.C09.vmc_compute_spec", "Lena.C09.vmc_is_sample_variance", "Lena.C09.vmc_is_population_variance",
-    "Lena.C09.vmc_yields_sample_variance", "Lena.C09.vmc_yields_population_variance", "Lena.C09.vmc_reset_fresh",
-    # Vectorize
-    "Lena.C09.vec_compute_spec", "Lena.C09.vec_sum_compute_spec", "Lena.C09.zipLongest_row",
-    "Lena.C09.vec_reset_fresh", "Lena.C09.vec_sum_reset_fresh", "Lena.C09.vec_mean_reset_fresh",
-    "Lena.C09.mapData_fillAll", "Lena.C09.vec_seq_sum_reset_fresh", "Lena.C09.vec_seq_sum_compute_spec",
-    # Histogram
-    "Lena.C09.binIndex_spec", "Lena.C09.hist_compute_spec", "Lena.C09.hist_conservation",
-    "Lena.C09.hist_reset_is_init", "Lena.C09.hist_reset_fresh",
-    # extension round: construct, Vectorize by simulation (DSum / Mean(DSum()) inside), Mean around any sum sequence,
-    # GroupBy key errors and C15's real key function, Count.run, n-dimensional Histogram on C06's model
-    "Lena.C09.Machine.mapOut_run", "Lena.C09.mapOut_reset_fresh", "Lena.C09.vecC_compute", "Lena.C09.Vec.build_arity",
-    "Lena.C09.vecC_reset_fresh",
-    "Lena.C09.vec_reset_fresh_sim", "Lena.C09.dsum_innerSim", "Lena.C09.meand_innerSim",
-    "Lena.C09.vec_meand_reset_fresh", "Lena.C09.vec_dsum_reset_fresh",
-    "Lena.C09.meanOver_compute_spec", "Lena.C09.meanOver_compute_empty", "Lena.C09.mean_sum_start_spec",
-    "Lena.C09.mean_count_spec", "Lena.C09.mean_multi_spec", "Lena.C09.meanOver_reset_fresh",
+    "Lena.C09.meanOver_compute_spec", "Lena.C09.mean_sum_start_spec", "Lena.C09.mean_count_spec",
+    "Lena.C09.mean_multi_spec", "Lena.C09.mean_tagged_spec", "Lena.C09.meanOver_reset_fresh",
     "Lena.C09.mean_sum_start_reset_fresh",
-    "Lena.C09.groupByOpt_fillAll", "Lena.C09.groupByOpt_fill_none", "Lena.C09.groupByOpt_reset_fresh",
-    "Lena.C09.c15_groupsAdd_eq", "Lena.C09.groupby_c15_compute_spec",
-    "Lena.C09.count_run_spec", "Lena.C09.count_run_empty", "Lena.C09.count_run_then_compute",
-    "Lena.C09.bisect_ok", "Lena.C09.binIndex_eq_bin1d", "Lena.C09.histnd_reset_is_init", "Lena.C09.histnd_reset_fresh",
-    "Lena.C09.histnd_fillAll_C06", "Lena.C09.histnd_compute_spec",
+    "Lena.C09.vmc_compute_spec", "Lena.C09.vmc_compute_after_history", "Lena.C09.vmc_is_sample_variance",
+    "Lena.C09.vmc_is_population_variance", "Lena.C09.vmc_yields_sample_variance", "Lena.C09.vmc_yields_population_variance",
+    # Vectorize
+    "Lena.C09.vec_compute_spec", "Lena.C09.vec_sum_compute_spec", "Lena.C09.vec_seq_sum_compute_spec",
+    "Lena.C09.vec_reset_fresh", "Lena.C09.vec_reset_fresh_sim", "Lena.C09.vecL_reset_fresh", "Lena.C09.vecL_or_reset_fresh",
+    "Lena.C09.vec_sum_reset_fresh", "Lena.C09.vec_mean_reset_fresh", "Lena.C09.vec_seq_sum_reset_fresh",
+    "Lena.C09.vec_meand_reset_fresh", "Lena.C09.vec_dsum_reset_fresh", "Lena.C09.vecC_reset_fresh",
+    # Histogram
+    "Lena.C09.binIndex_spec", "Lena.C09.binIndex_eq_bin1d", "Lena.C09.hist_compute_spec", "Lena.C09.hist_conservation",
+    "Lena.C09.hist_compute_after_history", "Lena.C09.hist_reset_is_init",
+    "Lena.C09.histnd_reset_is_init", "Lena.C09.histnd_compute_spec", "Lena.C09.histnd_compute_spec_any",
+    "Lena.C09.histnd_cells_partial", "Lena.C09.histnd_fill_out",
     # Graph
-    "Lena.C09.graph_compute_spec", "Lena.C09.graph_points", "Lena.C09.graph_reset_is_init",
-    "Lena.C09.graph_reset_fresh", "Lena.C09.graph_pinned_reset_not_fresh",
+    "Lena.C09.graph_points", "Lena.C09.graph_own_keys_only", "Lena.C09.graph_scale_adopted",
+    "Lena.C09.graph_from_reset_fresh", "Lena.C09.graph_from_reset_not_same_args",
+]
+# audited, but not counted as proof obligations of the property: restatements of the model (transcription checks:
+# the model's reset of these elements is a constant, so reset-equals-fresh is one `rfl` - the assurance for them is the
+# fresh-element replay of the harness), model-internal glue and encoding lemmas
+AUX_THEOREMS = [
+    "Lena.C09.count_reset_fresh", "Lena.C09.sum_reset_fresh", "Lena.C09.store_reset_fresh", "Lena.C09.groupby_reset_fresh",
+    "Lena.C09.groupByOpt_reset_fresh", "Lena.C09.vmc_reset_fresh", "Lena.C09.hist_reset_fresh", "Lena.C09.histnd_reset_fresh",
+    "Lena.C09.graph_reset_is_init", "Lena.C09.graph_reset_fresh", "Lena.C09.graph_pinned_reset_not_fresh",
+    "Lena.C09.graph_compute_spec", "Lena.C09.Graph.compute_eq", "Lena.C09.graph_compute_cases",
+    "Lena.C09.Ctx.get_set", "Lena.C09.Ctx.lookup_set", "Lena.C09.Ctx.set_set",
+    "Lena.C09.DSum.addLoop_total", "Lena.C09.dsum_innerSim", "Lena.C09.meand_innerSim",
+    "Lena.C09.Machine.mapOut_run", "Lena.C09.mapOut_reset_fresh", "Lena.C09.vecC_compute", "Lena.C09.Vec.build_arity",
+    "Lena.C09.zipLongest_row", "Lena.C09.mapData_fillAll", "Lena.C09.meanOver_compute_empty",
+    "Lena.C09.groupByOpt_fillAll", "Lena.C09.groupByOpt_fillAll_mixed", "Lena.C09.groupByOpt_fill_none",
+    "Lena.C09.c15_groupsAdd_eq", "Lena.C09.count_run_spec", "Lena.C09.count_run_empty",
+    "Lena.C09.bisect_ok", "Lena.C09.histnd_fillAll_C06", "Lena.C09.histnd_fill_cell",
 ]
 TRUSTED = [
     "Lean 4.33.0 kernel; axioms limited to propext, Classical.choice, Quot.sound (audited by #print axioms on every run)",
@@ -613,7 +626,7 @@ def _spec_requests(case):
                 if rk is not None:
                     ks.append(keys.setdefault(rk, len(keys)))
             return [{"spec": "keys", "ks": ks, "probe": ks[len(ks) // 2]}] if ks else []
-        if k == "vec" and spec["inner"]["k"] not in ("dsum",) and not (spec["inner"]["k"] == "mean" and spec["inner"]["seq"] == "dsum"):
+        if k == "vec" and spec["inner"]["k"] not in ("dsum", "vec2") and not (spec["inner"]["k"] == "mean" and spec["inner"]["seq"] == "dsum"):
             return [{"spec": "vec", "rows": [[_scaled(x, sh) for x in v["d"]] for v in fills], "i": len(fills) % 3}]
         if k == "hist" and not spec.get("md"):
             es = [_frac(x) for x in spec["edges"]]
@@ -629,7 +642,20 @@ def _spec_requests(case):
                      "bins": spec.get("bins"), "iv": 0 if spec.get("iv") is None else spec["iv"],
                      "vs": [{"d": [_scaled(x, sh) for x in v["d"]], "c": _m_ctx(v.get("c"), tab)} for v in fills]}]
         if k == "dsum" or (k == "mean" and spec["seq"] == "dsum"):
-            return [{"spec": "dsum", "vs": [_dyadic(v["d"]) for v in fills]}]
+            reqs = [{"spec": "dsum", "vs": [_dyadic(v["d"]) for v in fills]}]
+            # decimal.Context.add under traps=[Inexact], against the decimal module itself (independent of lena)
+            big = decimal.Context(prec=5000)
+            ds = [decimal.Decimal(_num(v["d"])) for v in fills]
+            a = ds[0]
+            for d in ds[1:-1]:
+                a = big.add(a, d)
+            b = ds[-1] if len(ds) > 1 else decimal.Decimal(_num(spec.get("total0", 0)) if k == "dsum" else 0)
+            exact = big.add(a, b)
+            nd = len(exact.normalize(big).as_tuple().digits)
+            tup = lambda x: [int("".join(map(str, x.as_tuple().digits))) * (-1 if x.as_tuple().sign else 1), x.as_tuple().exponent]
+            for p in sorted({max(1, nd - 1), nd, nd + 3, 28}):
+                reqs.append({"spec": "ctxadd", "a": tup(a), "b": tup(b), "prec": p})
+            return reqs
     except ValueError:
         return []
     return []
@@ -668,6 +694,14 @@ def _spec_check(case, req, rep):
         tot = sum(fr, Fraction(0))
         pr = lambda f: [f.numerator, f.denominator]
         want = {"dySum": pr(tot), "bareSum": pr(tot), "dec": [pr(f) for f in fr], "dy": [pr(f) for f in fr]}
+    elif kind == "ctxadd":
+        mk = lambda t: decimal.Decimal(t[0]).scaleb(t[1], decimal.Context(prec=5000))
+        try:
+            r = decimal.Context(prec=req["prec"], traps=[decimal.Inexact]).add(mk(req["a"]), mk(req["b"]))
+            f = Fraction(r)
+            want = {"r": [f.numerator, f.denominator]}
+        except decimal.Inexact:
+            want = {"inexact": True}
     elif kind == "histel":
         spec = case["el"]
         fills = [op[1] for op in case["ops"] if op[0] == "f"][:6]
@@ -1052,10 +1086,19 @@ def _agg_fail(spec, e, fills, start, zero):
     last = _ctx_of(fills[-1]) if fills else {}
     want_ctx = _expect_ctx(last)
 
+    def rec_update(d, other):          # lena.context.update_recursively on encoded contexts
+        for kk, vv in other.items():
+            if isinstance(vv, dict) and "dict" in vv and isinstance(d.get(kk), dict) and "dict" in d[kk]:
+                sub = {"dict": dict(d[kk]["dict"])}
+                rec_update(sub["dict"], vv["dict"])
+                d[kk] = sub
+            else:
+                d[kk] = vv
+
     def ctx_ok(c, extra=None):
-        w = dict(want_ctx)
+        w = copy.deepcopy(want_ctx)
         if extra:
-            w.update(extra)
+            rec_update(w, extra)
         return (c or {}) == w
 
     if k == "count":
@@ -1082,7 +1125,7 @@ def _agg_fail(spec, e, fills, start, zero):
         if not ctx_ok(c):
             return f"{k} yields context {c}; the last filled context is {want_ctx}"
         return None
-    if k == "mean" and spec["seq"] in ("count", "store"):
+    if k == "mean" and spec["seq"] in ("count", "store", "storetag", "storenest"):
         # "If the sum_seq yields several values, they are all yielded, but only the first is divided by number of
         # events"; the context of each is the last filled context updated with its own
         n = len(fills)
@@ -1090,6 +1133,10 @@ def _agg_fail(spec, e, fills, start, zero):
             return "skip"
         if spec["seq"] == "count":
             sums = [(Fraction(n), {"count": n})]
+        elif spec["seq"] == "storetag":
+            sums = [(_frac(v["d"]), {"v%d" % _num(v["d"]): 1}) for v in fills]
+        elif spec["seq"] == "storenest":
+            sums = [(_frac(v["d"]), {"n": {"dict": {"k%d" % _num(v["d"]): 1}}, "w": _num(v["d"])}) for v in fills]
         else:
             sums = [(_frac(v["d"]), {}) for v in fills]
         if len(e) != len(sums):
@@ -1191,6 +1238,10 @@ def _agg_fail(spec, e, fills, start, zero):
         if not (isinstance(d, dict) and "graph" in d) or c is None:
             return f"Graph yields {e[0]}, not a (graph, context) pair"
         pts = [_data(spec, v["d"]) for v in fills]
+        if not zero and spec.get("points0"):
+            pts = [(_num(q[0]), _num(q[1])) for q in spec["points0"]] + pts
+        if not zero and not fills and spec.get("context0"):
+            want_ctx = _expect_ctx(spec["context0"])
         if spec["sort"]:
             pts = sorted(pts)
         if d["graph"]["pts"] != _enc(pts):
@@ -1201,13 +1252,13 @@ def _agg_fail(spec, e, fills, start, zero):
             return f"Graph yields context {c}; the last filled context is {want_ctx}"
         return None
     if k == "vec":
-        inner = spec["inner"]
         dim = _vec_dim(spec)
         rows = []
         comps = []
         mul = spec.get("wrap") or 1
         for i in range(dim):       # what component i is filled with: the (preprocessed) bare coordinate
-            comps.append([{"d": _mknum(_num(v["d"][i]) * mul), "c": None} for v in fills])
+            comps.append([{"d": v["d"][i] if isinstance(v["d"][i], list) else _mknum(_num(v["d"][i]) * mul), "c": None}
+                          for v in fills])
         # every component's own results, judged by the inner element's rule
         outs = []
         con = spec.get("construct")
@@ -1230,6 +1281,7 @@ def _agg_fail(spec, e, fills, start, zero):
             col = [row[i] for row in outs]
             while col and col[-1] is None:
                 col.pop()
+            inner = _inner_spec_full(spec, i)
             istart = _start_of(inner, zero)
             msg = _agg_fail(inner, col, comps[i], istart, zero)
             if msg == "skip":
@@ -1317,10 +1369,14 @@ def oracle(case, res):
     # 1. the documented aggregate, for every compute whose preceding fills (since construction / the last reset) all succeeded
     fills, zero, clean = [], False, True
     gscale = spec.get("scale0")            # Graph: the scale a newly constructed graph has
+    if (spec.get("context0") or {}).get("scale") is not None:
+        gscale = spec["context0"]["scale"]     # adopted by __init__ (a contradiction is a construction error)
     for i, (op, o) in enumerate(zip(ops, obs)):
         if op[0] == "f":
             if o.get("f") is not None:
-                if spec["k"] == "vec" and o["f"] == "Other:IndexError" and len(op[1]["d"]) < _vec_dim(spec):
+                if spec["k"] == "vec" and o["f"] == "Other:IndexError" and (
+                        len(op[1]["d"]) < _vec_dim(spec) or any(
+                            isinstance(x, list) and len(x) < max(spec["inner"].get("dim", 0), 1) for x in op[1]["d"])):
                     clean = False          # a data vector that is too short: no claim until the next reset
                     continue
                 if spec["k"] == "groupby" and o["f"] == "LenaValueError" and _ref_key(spec, _ctx_of(op[1])) is None:
@@ -1331,10 +1387,12 @@ def oracle(case, res):
                     continue
                 return f"op {i}: fill({op[1]}) raised {o['f']} (history {_show(ops[:i + 1])})"
             fills.append(op[1])
-        elif op[0] == "run":
+        elif op[0] in ("run", "fi"):
             continue
         elif op[0] == "r":
-            if spec["k"] == "mean" and spec["seq"] == "fcsum":
+            if spec["k"] == "vmc" and spec.get("sums") == "fc" and not res.get("has_reset"):
+                continue        # "If they both can be reset, this object has also a reset() method": it has none here
+            if spec["k"] == "mean" and spec["seq"] in ("fcsum", "storetag", "storenest"):
                 if o != {"re": "LenaAttributeError"}:      # "the sum element has no reset method"
                     return f"op {i}: reset() of Mean around a sum element without reset gives {o}, LenaAttributeError is documented"
                 continue                                    # nothing was reset
@@ -1347,7 +1405,7 @@ def oracle(case, res):
                 continue
             exp_err = _expected_compute_error(spec, fills)
             if spec["k"] == "graph":
-                cs = (_ctx_of(fills[-1]) if fills else {}).get("scale")
+                cs = (_ctx_of(fills[-1]) if fills else ({} if zero else (spec.get("context0") or {}))).get("scale")
                 if cs is not None and gscale is not None and gscale != cs:
                     exp_err = ["LenaRuntimeError"]     # documented: initialisation and context scale differ
                 else:
@@ -1369,6 +1427,8 @@ def oracle(case, res):
             if not msg and spec["k"] == "graph":
                 c = _split_pair(o["c"][0])[1]
                 gdim = None if not fills else (len(fills[0]["d"][0]) if isinstance(fills[0]["d"][0], list) else 1)
+                if not zero and spec.get("points0"):
+                    gdim = 1
                 if c.get("scale") != gscale or c.get("dim") != gdim:
                     msg = (f"Graph yields context {c}; scale {gscale} (initial or from the last filled context) and "
                            f"dim {gdim} expected")
@@ -1406,6 +1466,15 @@ def _oracle_countrun(spec, ops, obs):
             if d != _enc(_data(spec, op[1][-1]["d"])) or c != want:
                 return (f"op {i}: Count.run yields {o['run'][-1]} last; the last value with context {want} expected "
                         f"(history {_show(ops[:i + 1])})")
+        elif op[0] == "fi":
+            count += 1
+            want = dict(_expect_ctx(_ctx_of(op[1])), **{name: count})
+            if "fi" not in o or len(o["fi"]) != 1:
+                return f"op {i}: Count.fill_into gives {o}"
+            d, c = _split_pair(o["fi"][0])
+            if d != _enc(_data(spec, op[1]["d"])) or c != want:
+                return (f"op {i}: Count.fill_into hands on {o['fi'][0]}; the value with context {want} expected "
+                        f"(history {_show(ops[:i + 1])})")
         elif op[0] == "f":
             if o.get("f") is not None:
                 return f"op {i}: fill raised {o}"
@@ -1429,6 +1498,8 @@ def _show(ops):
     for op in ops:
         if op[0] == "run":
             out.append(f"run({[v['d'] for v in op[1]]})")
+        elif op[0] == "fi":
+            out.append(f"fill_into(receiver, {op[1]['d']!r}{'' if op[1].get('c') is None else ', ' + repr(op[1]['c'])})")
         elif op[0] == "f":
             v = op[1]
             out.append(f"fill({v['d']!r}{'' if v.get('c') is None else ', ' + repr(v['c'])})")
@@ -1449,7 +1520,9 @@ def _expected_compute_error(spec, fills):
         if n == 1 and spec["corrected"]:
             return ["LenaZeroDivisionError"]
     if k == "vec":
-        return _expected_compute_error(spec["inner"], fills)
+        if spec.get("het"):
+            return None
+        return _expected_compute_error(_inner_spec_full(spec, 0), fills)
     if k == "graph":
         # a scale in the flow that contradicts the scale of the graph is documented to be an error
         return None
@@ -1471,6 +1544,10 @@ def _init_oracle(spec, res):
                 want = "LenaValueError"
             elif init is not None and len(init) != len(axes[0]) - 1:
                 want = "LenaValueError"
+    elif k == "graph":
+        c0 = (spec.get("context0") or {}).get("scale")
+        if c0 is not None and spec["scale0"] is not None and c0 != spec["scale0"]:
+            want = "LenaRuntimeError"   # "Initialization and context scale differ"
     elif k == "groupby":
         if any(not isinstance(a, (str, list)) for a in spec["args"]):
             want = "LenaTypeError"      # "group_by and merge should be strings or containers of strings"
@@ -1558,7 +1635,7 @@ def shrink(case):
 # ----------------------------------------------------------------------------------------
 # case generation
 
-_CTXS = [None, {}, {"a": 1}, {"a": 2, "b": 3}, {"count": 7}, {"variable": {"name": "x"}, "a": 1}, {"scale": 5},
+_CTXS = [None, {}, {"a": 1}, {"a": 2, "b": 3}, {"count": 7}, {"variable": {"name": "x"}, "a": 1}, {"scale": 5}, {"scale": 0},
          {"scale": 6, "g": 1}, {"g": 1, "m": 1}, {"g": 2, "m": 1}, {"g": 1, "m": 2}, {"b": None}]
 
 
@@ -1640,16 +1717,27 @@ def _specs_small():
     out.append(({"k": "mean", "seq": "count", "poe": False}, 0, [v(3, {"a": 1}), v(4, {"count": 9})]))
     out.append(({"k": "mean", "seq": "store", "poe": True}, 0, [v(3, {"a": 1}), v(4)]))
     out.append(({"k": "mean", "seq": "fcsum", "poe": False}, 0, [v(3, {"a": 1}), v(4)]))
+    out.append(({"k": "mean", "seq": "storetag", "poe": False}, 0, [v(3, {"a": 1}), v(-4, {"v3": 7})]))
+    out.append(({"k": "mean", "seq": "storenest", "poe": True}, 0, [v(3, {"n": {"z": 1}}), v(4, {"a": 1})]))
     for corr in (True, False):
         for poe in (False, True):
             out.append(({"k": "vmc", "corrected": corr, "poe": poe}, 0, [v(3, {"a": 1}), v(7)]))
     out.append(({"k": "vmc", "corrected": True, "poe": False, "explicit": True}, 0, [v(3, {"a": 1}), v(7)]))
+    out.append(({"k": "vmc", "corrected": False, "poe": True, "sums": "fc"}, 0, [v(3, {"a": 1}), v(7)]))
     # elements filled and reset through adapters
     out.append(({"k": "sum", "total0": 2, "via": "fr"}, 0, [v(5, {"a": 1}), v(-7)]))
     out.append(({"k": "count", "name": "count", "count0": 0, "via": "frseq"}, 0, [v(5, {"a": 1}), v(7)]))
     out.append(({"k": "mean", "seq": "sum", "poe": True, "via": "fc"}, 0, [v(3, {"a": 1}), v(4)]))
     out.append(({"k": "hist", "edges": [0, 1, 2], "bins": [3, 4], "via": "fr"}, 0, [v(0), v(-1, {"a": 1})]))
     out.append(({"k": "groupby", "args": ["g"]}, 0, [v(3, {"g": {"__set__": [1, 2]}}), v(4, {"g": 2, "m": 1})]))
+    # a flow scale 0 is a scale; a graph built from points and a context (reset goes to the documented empty start)
+    out.append(({"k": "graph", "scale0": None, "sort": True}, 0, [v([3, 1], {"scale": 0}), v([1, 2], {"scale": 4})]))
+    out.append(({"k": "graph", "scale0": 0, "sort": False}, 0, [v([3, 1], {"scale": 0}), v([1, 2], {"scale": 4})]))
+    out.append(({"k": "graph", "scale0": None, "sort": True, "points0": [[5, 1], [2, 2]], "context0": {"a": 1}}, 0,
+                [v([3, 1], {"scale": 5}), v([1, 2])]))
+    out.append(({"k": "graph", "scale0": None, "sort": False, "points0": [[5, 1]], "context0": {"scale": 3, "b": 2}}, 0,
+                [v([3, 1], {"scale": 3}), v([1, 2], {"scale": 4})]))
+    out.append(({"k": "groupby", "args": ["g"], "alias": True}, 0, [v(3, {"g": 1, "m": 1}), v(4, {"g": 2, "m": 1})]))
     out.append(({"k": "graph", "scale0": None, "sort": True}, 0, [v([[3, 1], 1], {"a": 1}), v([[1], 2])]))
     out.append(({"k": "graph", "scale0": None, "sort": False}, 0, [v([[3, 1], 1], {"a": 1}), v([[1, 0], 2])]))
     for grp in (True, False):
@@ -1682,6 +1770,14 @@ def _specs_small():
     out.append(({"k": "vec", "inner": inners[1], "list": False, "dim": 2, "wrap": 1}, 0, [v([1, 2], {"a": 1}), v([3, 5])]))
     out.append(({"k": "vec", "inner": inners[0], "list": True, "nseq": 2, "dim": None, "wrap": 2}, 0, [v([1, 2], {"a": 1}), v([3, 5])]))
     out.append(({"k": "vec", "inner": inners[5], "list": True, "nseq": 2, "dim": None, "wrap": 1}, 0, [v([1, 2], {"a": 1}), v([3])]))
+    # a list of different components; a component whose fill can raise (a short inner vector); a negative dim
+    out.append(({"k": "vec", "inner": inners[0], "list": True, "het": ["sum", "count"], "nseq": 2, "dim": None}, 0,
+                [v([1, 2], {"a": 1}), v([3, 5])]))
+    out.append(({"k": "vec", "inner": inners[0], "list": True, "het": ["count", "sum", "sum"], "nseq": 3, "dim": None,
+                 "construct": "variadic"}, 0, [v([1, 2, 4], {"a": 1}), v([3, 5])]))
+    out.append(({"k": "vec", "inner": {"k": "vec2", "dim": 2}, "list": False, "dim": 2}, 0,
+                [v([[1, 2], [3, 4]], {"a": 1}), v([[5, 6], [7]])]))
+    out.append(({"k": "vec", "inner": inners[0], "list": False, "dim": -2}, 0, [v([1, 2], {"a": 1}), v([3])]))
     # construct: a callable for any number of components, a namedtuple of the right and of the wrong size
     for con in ("variadic", 2, 3):
         out.append(({"k": "vec", "inner": inners[0], "list": False, "dim": 2, "construct": con}, 0,
@@ -1710,6 +1806,9 @@ def _init_cases():
                    "ops": [["f", v2], ["c"], ["r"], ["c"]], "sh": 0})
     for edges in ([[0, 1, 2], [1]], [[0, 1, 2], [2, 1]], [[0, 1]], [[0, 1, 2], [0, 1], [0, 5]]):
         cs.append({"el": {"k": "hist", "md": True, "edges": edges}, "ops": [["f", v2], ["c"]], "sh": 0})
+    for sc0, c0 in ((5, {"scale": 6}), (5, {"scale": 5}), (None, {"scale": 6}), (0, {"scale": 0})):
+        cs.append({"el": {"k": "graph", "scale0": sc0, "sort": True, "points0": [[1, 1]], "context0": c0},
+                   "ops": [["c"], ["r"], ["c"]], "sh": 0})
     for args in ([5], ["g", 7], [None]):
         cs.append({"el": {"k": "groupby", "args": args}, "ops": ops, "sh": 0})
     # one-dimensional edges given as a list of one axis, with initial bins (8d715e5), reset re-creating them
@@ -1764,13 +1863,16 @@ def _rand_case(rng, maxlen):
             pool.append(_mknum(x))
             return {"d": _mknum(x), "c": ctx()}
     elif kind == "mean" and rng.random() < 0.3:
-        sq = rng.choice(["sumt", "count", "store", "fcsum"])
-        if sq == "count":
+        sq = rng.choice(["sumt", "count", "store", "fcsum", "storetag", "storenest"])
+        if sq in ("count", "storetag", "storenest"):
             sh = 0
         spec = {"k": "mean", "seq": sq, "poe": rng.random() < 0.4}
         if sq == "sumt":
             spec["t0"] = _rand_num(rng, sh, 20)
-        mk = lambda: {"d": _rand_num(rng, sh, rng.choice([4, 20])), "c": ctx()}
+        if sq in ("storetag", "storenest"):
+            mk = lambda: {"d": rng.randint(-9, 9), "c": rng.choice([None, {"a": 1}, {"n": {"z": 1}, "w": 0}, {"v3": 5}])}
+        else:
+            mk = lambda: {"d": _rand_num(rng, sh, rng.choice([4, 20])), "c": ctx()}
     elif kind == "mean":
         spec = {"k": "mean", "seq": rng.choice([None, "sum", "dsum"]), "poe": rng.random() < 0.4}
         if spec["seq"] == "dsum" and rng.random() < 0.6:
@@ -1787,12 +1889,16 @@ def _rand_case(rng, maxlen):
         spec = {"k": "vmc", "corrected": rng.random() < 0.6, "poe": rng.random() < 0.4}
         if rng.random() < 0.3:
             spec["explicit"] = True
+        elif rng.random() < 0.1:
+            spec["sums"] = "fc"
         mk = lambda: {"d": _rand_num(rng, sh, rng.choice([3, 10, 22])), "c": ctx()}
     elif kind == "store":
         spec = {"k": "store", "group": rng.random() < 0.5}
         mk = lambda: {"d": _rand_num(rng, sh, 10), "c": ctx()}
     elif kind == "groupby":
         spec = {"k": "groupby", "args": rng.choice([[], ["g"], ["", "m"], [["g", "m"]], ["", ["m", "a"]]])}
+        if rng.random() < 0.15:
+            spec["alias"] = True
         def mk():
             c = ctx()
             if rng.random() < 0.08:         # a context that cannot be rendered as a key
@@ -1851,8 +1957,11 @@ def _rand_case(rng, maxlen):
                     m = rng.randint(-12, 12)
                 return {"d": num_of(m), "c": ctx()}
     elif kind == "graph":
-        spec = {"k": "graph", "scale0": rng.choice([None, None, 5, 6]), "sort": rng.random() < 0.6}
-        gd = rng.choice([0, 0, 0, 1, 2])     # coordinates: numbers, or tuples of that length
+        spec = {"k": "graph", "scale0": rng.choice([None, None, 5, 6, 0]), "sort": rng.random() < 0.6}
+        if rng.random() < 0.25:
+            spec["points0"] = [[_rand_num(rng, sh, 4), _rand_num(rng, sh, 4)] for _ in range(rng.randint(0, 3))]
+            spec["context0"] = rng.choice([None, {"a": 1}, {"scale": 5}, {"scale": 0, "b": 2}])
+        gd = 0 if spec.get("points0") else rng.choice([0, 0, 0, 1, 2])     # coordinates: numbers, or tuples of that length
 
         def mk():
             x = _rand_num(rng, sh, 4)
@@ -1871,12 +1980,26 @@ def _rand_case(rng, maxlen):
             spec = {"k": "vec", "inner": inner, "list": True, "nseq": rng.randint(1, 3), "dim": None}
         else:
             spec = {"k": "vec", "inner": inner, "list": False, "dim": rng.randint(1, 3)}
-        if rng.random() < 0.4:
+        r0 = rng.random()
+        if r0 < 0.08:
+            spec = {"k": "vec", "inner": {"k": "sum", "total0": 0}, "list": True, "dim": None,
+                    "het": [rng.choice(["sum", "count"]) for _ in range(rng.randint(1, 3))]}
+            spec["nseq"] = len(spec["het"])
+        elif r0 < 0.14:
+            spec = {"k": "vec", "inner": {"k": "vec2", "dim": rng.randint(1, 2)}, "list": False, "dim": rng.randint(1, 2)}
+            idim, odim = spec["inner"]["dim"], spec["dim"]
+
+            def mk():
+                n = odim if rng.random() < 0.9 else rng.randint(0, odim + 1)
+                return {"d": [[_rand_num(rng, sh, 6) for _ in range(idim if rng.random() < 0.85 else rng.randint(0, idim + 1))]
+                              for _ in range(n)], "c": ctx()}
+            return {"el": spec, "ops": _rand_history(rng, mk, maxlen), "sh": sh}
+        elif rng.random() < 0.4:
             spec["wrap"] = rng.choice([1, 2, 2, 4])
         if rng.random() < 0.3:
             spec["construct"] = rng.choice(["variadic", 1, 2, 3])
         dim = _vec_dim(spec)
-        if rng.random() < 0.12 and not spec.get("wrap"):        # Decimal sums component-wise, floats of mixed magnitude
+        if rng.random() < 0.12 and not spec.get("wrap") and not spec.get("het"):        # Decimal sums component-wise, floats of mixed magnitude
             sh = 0
             spec["inner"] = rng.choice([{"k": "dsum", "total0": 0}, {"k": "mean", "seq": "dsum", "poe": rng.random() < 0.5}])
 
@@ -1900,7 +2023,8 @@ def _rand_case(rng, maxlen):
 def _countrun_cases(quick):
     v = lambda d, c=None: {"d": d, "c": c}
     for spec in ({"k": "countrun", "name": "count", "count0": 0}, {"k": "countrun", "name": "n", "count0": 2}):
-        alphabet = [["run", [v(1), v(2, {"a": 1})]], ["run", []], ["run", [v(3, {"n": 5})]], ["f", v(4, {"b": 1})], ["c"], ["r"]]
+        alphabet = [["run", [v(1), v(2, {"a": 1})]], ["run", []], ["run", [v(3, {"n": 5})]], ["f", v(4, {"b": 1})],
+                    ["fi", v(6, {"c": 1})], ["fi", v(7)], ["c"], ["r"]]
         for h in _all_histories(alphabet, 3 if quick else 4):
             yield {"el": spec, "ops": h, "sh": 0}
 
